@@ -133,6 +133,28 @@ theorem del_view (l : Layer) (hc : Coherent l) (k : Bytes) :
 example : view (exL.set [0x00] [9]) = OMap.set (view exL) [0x00] [9] := (set_view exL exL_coherent _ _).1
 example : view (exL.del [0xff]) = OMap.del (view exL) [0xff] := (del_view exL exL_coherent _).1
 
+/-- `Set` / `Delete` addressed to a store anywhere in the stack act on *that*
+store's view as `OMap.set` / `OMap.del` (the views of the stores above follow,
+because `view` is the structural overlay). -/
+theorem set_del_at_depth (l : Layer) (hc : Coherent l) (d : Nat) (x : Layer) (hx : l.sub d = some x)
+    (k v : Bytes) :
+    (∃ x', (step l (.set d (some k) (some v))).2.sub d = some x' ∧ view x' = OMap.set (view x) k v) ∧
+    (∃ x', (step l (.del d (some k))).2.sub d = some x' ∧ view x' = OMap.del (view x) k) := by
+  have hcx := sub_coherent hc hx
+  constructor
+  · refine ⟨(x.apiSet (some k) (some v)).2, by simp only [step, sub_at', hx, Option.map_some], ?_⟩
+    cases x with
+    | base m => exact (set_spec (.base m) hcx k v).1
+    | cache c p => exact (set_spec (.cache c p) hcx k v).1
+    | pfx q p => exact (set_spec (.pfx q p) hcx k v).1
+  · refine ⟨(x.apiDel (some k)).2, by simp only [step, sub_at', hx, Option.map_some], ?_⟩
+    cases x with
+    | base m => exact (del_spec (.base m) hcx k).1
+    | cache c p => exact (del_spec (.cache c p) hcx k).1
+    | pfx q p => exact (del_spec (.pfx q p) hcx k).1
+
+example : exL.sub 2 = some (((run (.base []) (exOps.take 6)).2)) := rfl
+
 /-! ## Write -/
 
 /-- **writing a layer applies exactly its net changes to the parent**: after
@@ -209,6 +231,17 @@ theorem write_preserves_views_above (l : Layer) (hc : Coherent l) (d : Nat) :
   exact ⟨this.2, this.1⟩
 
 example : view (step exL (.write 2)).2 = view exL := (write_preserves_views_above exL exL_coherent 2).1
+
+/-- `Write` of the cache store `d` levels below the top: that store becomes empty
+and its parent's view becomes what the store's view was. -/
+theorem write_at_depth (l : Layer) (hc : Coherent l) (d : Nat) (c : CacheState) (p : Layer)
+    (hx : l.sub d = some (.cache c p)) :
+    ∃ p', (step l (.write d)).2.sub d = some (.cache .empty p') ∧ view p' = view (.cache c p) := by
+  obtain ⟨p', w1, w2, _⟩ := write_applies_net_changes c p (sub_coherent hc hx)
+  refine ⟨p', ?_, w2⟩
+  simp only [step, sub_at', hx, Option.map_some, w1]
+
+example : ∃ c p, exL.sub 2 = some (.cache c p) := ⟨_, _, rfl⟩
 
 /-! ## checkpoints -/
 
